@@ -18,7 +18,7 @@ ASSUME = [
 ]
 DAILY = ["1h", "1.5h", "1.6h", "2h", "2.5h", "3.5h", "4h"]
 WEEKLY = ["5h", "7.5h", "10h", "10.6h", "16h"]
-PLACES = ["res", "group", "task", "container", "restrict", "team"]
+PLACES = ["res", "group", "task", "container", "restrict", "team", "groupteam"]
 HORIZONS = {
     # name: (start, dur, effort hours for a weekly 5h / daily 2h limit)
     "fits": ("2025-01-06", "3w"),
@@ -90,6 +90,10 @@ def to_spec(it):
         x["alloc"] = ["r1", "r2"]
         x["effort"] = eff_min // 2
         x["limits"] = lim
+    elif place == "groupteam":
+        resources = [{"id": "grp", "limits": lim, "children": [r1, r2]}]
+        x["alloc"] = ["r1", "r2"]
+        x["effort"] = eff_min // 2
     if it["comp"]:
         tasks.append({"id": "z", "effort": 150, "alloc": ["r1"], "prio": 300})
     spec["resources"] = resources
@@ -132,7 +136,7 @@ def run(ctx):
     explore(ctx, universe(ctx.tier), "mc.props.c05:evaluate", st, payload=payload, sample_of=sample, trait=trait, timeout=300)
     common.vacuity_guard(ctx, st)
     cov = st.coverage(
-        "product universe: 6 horizons (fits, overruns the declared end, 14 months, year ends 2024/2026/2020) x 12 limit values x 6 placements "
+        "product universe: 6 horizons (fits, overruns the declared end, 14 months, year ends 2024/2026/2020) x 12 limit values x 7 placements "
         "x resolutions x ASAP/ALAP x competing task; states = distinct schedule observations; transitions = placements + bookings; "
         "non-trivial = the limit was reached in at least one day/week (it was binding)")
     return ctx.finish(cov, ASSUME)
